@@ -7,12 +7,14 @@ import EdbVerif.Model.Storage
 namespace EdbVerif.Storage
 
 /-- What the real schema engine guarantees about identities (uuids are unique,
-    a source has one pointer per name, sources exist). -/
+    a source has one pointer per name, sources exist) and what the guard on link property
+    names maintains (no user link property is named `source` / `target`). -/
 structure WF (s : Schema) : Prop where
   ids : s.ptrIds.Nodup
   names : ∀ p ∈ s.ptrs, ∀ q ∈ s.ptrs, p.src = q.src → p.name = q.name → p.id = q.id
   srcs : ∀ p ∈ s.ptrs, ∀ t, p.src = some t → t ∈ s.typeIds
   lpids : ∀ p ∈ s.ptrs, (p.lprops.map (·.id)).Nodup
+  lpnames : ∀ p ∈ s.ptrs, ∀ lp ∈ p.lprops, lp.implicitName = false
 
 /-- the invariant of the machine -/
 def Inv (st : State) : Prop :=
